@@ -133,6 +133,11 @@ def d14():  # C13 partition
     return (a.von, a.last) == (["jean"], ["De", "fontaine"]) and (b.first, b.von, b.last) == (["AA"], ["bb"], ["CC", "dd"])
 
 
+def d15():  # C02 / C10: quote inside braces inside a quoted value
+    lib = Splitter('@a{k, note = "a {"} b", x = 1}').split()
+    return len(lib.entries) == 1 and [(f.key, f.value) for f in lib.entries[0].fields] == [("note", '"a {"} b"'), ("x", "1")]
+
+
 if __name__ == "__main__":
     bad = 0
     for name, f in sorted(((k, v) for k, v in globals().items() if k[0] == "d" and k[1:].isdigit()), key=lambda kv: int(kv[0][1:])):
